@@ -53,19 +53,29 @@ func init() {
 		n, _ := strconv.Atoi(a[3])
 		in := Family(a[2], n)
 		src := &ast.Source{Input: in, Name: "big"}
-		t0 := time.Now()
+		// the smallest of up to three runs: one run can contain a garbage-collection cycle paid for
+		// by building the input, which says nothing about the parser
 		var err error
-		switch {
-		case a[0] == "q" && lim < 0:
-			_, err = parser.ParseQuery(src)
-		case a[0] == "q":
-			_, err = parser.ParseQueryWithTokenLimit(src, lim)
-		case lim < 0:
-			_, err = parser.ParseSchema(src)
-		default:
-			_, err = parser.ParseSchemaWithLimit(src, lim)
+		var d time.Duration
+		for rep := 0; rep < 3; rep++ {
+			t0 := time.Now()
+			switch {
+			case a[0] == "q" && lim < 0:
+				_, err = parser.ParseQuery(src)
+			case a[0] == "q":
+				_, err = parser.ParseQueryWithTokenLimit(src, lim)
+			case lim < 0:
+				_, err = parser.ParseSchema(src)
+			default:
+				_, err = parser.ParseSchemaWithLimit(src, lim)
+			}
+			if e := time.Since(t0); rep == 0 || e < d {
+				d = e
+			}
+			if d > 300*time.Millisecond {
+				break
+			}
 		}
-		d := time.Since(t0)
 		st, msg := "ok", ""
 		if err != nil {
 			st, msg = "err", err.Error()
